@@ -437,6 +437,7 @@ impl<'w, 'k, W: Write> Struct<'w, 'k, W> {
     where
         T: ?Sized + Serialize,
     {
+        let written = self.children.len();
         let ser = ContentSerializer {
             writer: &mut self.children,
             level: self.ser.ser.level,
@@ -460,7 +461,10 @@ impl<'w, 'k, W: Write> Struct<'w, 'k, W> {
                 ser,
             })?;
             // Element was written so we need to indent next field unless it is a text field
-            self.write_indent = true;
+            // (an empty sequence writes nothing: the previous decision stays in force)
+            if self.children.len() != written {
+                self.write_indent = true;
+            }
         }
         Ok(())
     }
